@@ -6,7 +6,8 @@
 (* TLC decides every event with the operators of ShiftOps and CosSin.      *)
 (*                                                                         *)
 (* "tshift": input = tone at signed DFT bin k (complex: exp(2 pi i k n/N), *)
-(*   real: cos(2 pi k n/N)), arbitrary shift array S (exact rationals of   *)
+(*   real: 2 + cos(2 pi k n/N), the constant keeps every true output value *)
+(*   away from 0), arbitrary shift array S (exact rationals of             *)
 (*   the doubles the code sees, row-major over the padded shift shape).    *)
 (*   Observed: lead / trail = number of leading / trailing samples that    *)
 (*   are exactly 0.0, inner = exact zeros elsewhere, r = least-squares     *)
@@ -53,8 +54,9 @@ TFailedE(e, o, s) ==
   IN (IF all THEN (IF o.lead = N THEN {} ELSE {"zero-region"})
       ELSE (IF o.lead = expLead /\ o.trail = expTrail THEN {} ELSE {"zero-region"})
            \cup (IF o.inner = 0 THEN {} ELSE {"zeroed-inside"})
-           \cup (IF CClose(C(o.r.re, o.r.im), want, Tol5) THEN {} ELSE {"phase"})
-           \cup (IF Le(o.dev, Tol5) THEN {} ELSE {"not-a-delayed-tone"}))
+           \* nfit = 0: too few kept samples to measure a ratio
+           \cup (IF o.nfit = 0 \/ CClose(C(o.r.re, o.r.im), want, Tol5) THEN {} ELSE {"phase"})
+           \cup (IF o.nfit = 0 \/ Le(o.dev, Tol5) THEN {} ELSE {"not-a-delayed-tone"}))
 
 TFailed(e) ==
   LET P == PadT(e.shsh, Len(e.ssh))
